@@ -14,6 +14,10 @@ def run_simple(prop, spec, tier, known_ids, t0, args):
     return G.report(prop, tier, spec['level'], results, spec['rule'], t0, src=spec['src'], model_checking=mc)
 
 PROPS = {
+ 'C18': dict(src='drivers/c18.cpp', level='exploration',
+   technique='exhaustive enumeration of all 8/16-bit values x all multiples / shift counts / bit counts (and all 2^32 16-bit interleave pairs, thorough) on the real functions against loop-based reference definitions',
+   text='Power-of-two family, multiples, findNSB, mask/fill/rotate are decided completely for 8-bit types (every value x every multiple 1..127/255, every shift, every (first,count)) and for all 16-bit values against a set of multiples; 32/64-bit types over boundary lattices; bitfieldInterleave/Deinterleave completely for 8-bit pairs and (thorough) all 2^32 16-bit pairs; gtx integer sqrt/nlz/log2 over all 2^32 ints (thorough).',
+   rule='INT8_ALL/INT16_ALL complete, INT32_EDGE/INT64_EDGE lattices (0, +-2^k, +-2^k+-1, runs of ones, complements, patterns) crossed with complete small parameter ranges (multiples, shift 0..w-1, n 1..w+1, OFFBITS). Power-of-two family restricted to x>0 and representable results, multiples to m>=1 and representable results (statement domain); skipped cases are counted as trivial. Float multiples: x=k/4 (k=-200..200) x 9 exactly representable m, all arithmetic exact.'),
  'C05': dict(src='drivers/c05.cpp', level='exploration',
    technique='exhaustive enumeration of every 8- and 16-bit value (and, thorough, all 2^32 32-bit values) x every legal (offset,bits) pair on the real functions, compared with a bit-at-a-time reference model',
    text='bitCount/findLSB/findMSB/bitfieldReverse/bitfieldExtract are decided completely for 8- and 16-bit types (and for 32-bit unary functions in the thorough tier), signed and unsigned, scalar and vec1-4; bitfieldInsert completely for 8-bit and over structured lattices x all (offset,bits) otherwise; 64-bit types and the two-operand 32-bit carry/borrow/extended-multiply functions over boundary lattices (stated as such in evidence).',
